@@ -532,9 +532,6 @@ def build_input(form, text, lines):
     raise ValueError(form)
 
 
-_SLUG = re.compile(r'[^a-z0-9]+')
-
-
 def classify_parse_error(msg):
     """ChangelogParseError text -> mechanism slug (the parser's own complaint class)."""
     m = msg
@@ -762,7 +759,8 @@ def run_case(ctx, case):
             ctx.violation(key, msg, {k: v for k, v in case.items() if k != 'matrix'})
             continue
         small = shrink(case, key)
-        for k2, m2 in evaluate(small):
+        allforms = {k: v for k, v in small.items() if k != 'form'}
+        for k2, m2 in evaluate(allforms):      # message for the shrunk witness, listing every form that shows it
             if k2 == key:
                 msg = m2
         text = render(small)[0]
